@@ -265,7 +265,25 @@ def check_C06(tier: str, v: Verdict):
                       "without label selection the arrays are 0/1 masks (of any dtype)"]
 
 
+def _assd_other_options():
+    """ASSD has no history: calls with other options (connectivity=2, a voxel spacing) made before and
+    between the judged default calls must not influence them."""
+    from panoptica import Metric
+    for shape in ((5,), (4, 4), (3, 3, 3)):
+        a = np.zeros(shape, dtype=bool)
+        b = np.zeros(shape, dtype=bool)
+        a[tuple(slice(0, 2) for _ in shape)] = True
+        b[tuple(slice(1, 3) for _ in shape)] = True
+        for kw in ({"connectivity": 2}, {"connectivity": len(shape)}, {"voxelspacing": 2.0}):
+            try:
+                with quiet():
+                    Metric.ASSD(a, b, **kw)
+            except Exception:  # noqa: BLE001   (an option the implementation does not support: irrelevant here)
+                pass
+
+
 def check_C07(tier: str, v: Verdict):
+    _assd_other_options()
     rng = random.Random(seed() * 7919 + 7)
     run_models(v, [("MC_Metrics", "MC_Metrics_quick.cfg")] if tier == "quick" else
                [("MC_Metrics", "MC_Metrics_quick.cfg"), ("MC_Metrics", "MC_Metrics_33.cfg"), ("MC_Metrics", "MC_Metrics_222.cfg"), ("MC_Metrics", "MC_Metrics_6.cfg")])
